@@ -1,7 +1,11 @@
 package props
 
 import (
+	"fmt"
+	"math/big"
+
 	"sifverif/chain"
+	"sifverif/env"
 	"sifverif/report"
 )
 
@@ -41,11 +45,47 @@ func C01(c Ctx) *report.Report {
 			rep.Sample(replayOf(h, 3))
 		}
 	}
-	rep.Evaluations = next
-	rep.DistinctNontrivial = countNontrivial(hs)
-	rep.Rule = histRule
+	// margin: open / close / admin close / liquidations and interest payments in BeginBlock, interleaved with swaps
+	nextM := 2000000
+	mhs := RunMarginHistories(c, rep, rng, c.N(8, 250), 45, &nextM)
+	for _, h := range mhs {
+		MonMarginSolvency(rep, h)
+	}
+	rep.Evaluations = next + (nextM - 2000000)
+	rep.DistinctNontrivial = countNontrivial(hs) + (nextM - 2000000)
+	rep.Rule = histRule + "; plus margin histories (see C13) whose every transition is re-run by the margin model and checked for module balance = pool balances + custody"
 	writeHistFiles(c, rep, "cases_C01", hs, 450)
+	writeMarginFiles(c, rep, "cases_C01_margin", mhs, 300)
 	return rep
+}
+
+// MonMarginSolvency — C01 on margin histories: for every denom the clp module account holds exactly the recorded
+// pool balances plus custody (no rewards buckets in these histories), after every transaction and block hook.
+func MonMarginSolvency(rep *report.Report, h MHistory) {
+	nd := int64(len(h.Env.DenomID))
+	for _, s := range h.Steps {
+		for d := int64(0); d < nd; d++ {
+			rec := new(big.Int)
+			for _, p := range s.Post.Pools {
+				if d == 0 {
+					rec.Add(rec, p.NB)
+					rec.Add(rec, p.NC)
+				} else if d == p.Asset {
+					rec.Add(rec, p.EB)
+					rec.Add(rec, p.EC)
+				}
+			}
+			held := mbal(s.Post, env.ClpModuleID, d)
+			if held.Cmp(rec) != 0 {
+				kind := "tx"
+				if s.Kind == 3 {
+					kind = "BeginBlock"
+				}
+				rep.Violate("C01/margin-diverged/"+kind, fmt.Sprintf("denom %d: module account holds %s, pools record %s (balance + custody)", d, held, rec), h.replay(s.StepNo))
+				break
+			}
+		}
+	}
 }
 
 // C02 — pool units = sum of provider units; removal bounds.
@@ -55,7 +95,7 @@ func C02(c Ctx) *report.Report {
 	next := 0
 	o := clpOpts(c, 30, 1200)
 	o.Weights = map[int]int{1: 2, 2: 7, 3: 6, 4: 6, 5: 4, 6: 2, 7: 1, 8: 2, 9: 1}
-	hs := []History{ScriptF14(&next)} // corpus first
+	hs := []History{ScriptF14(&next), ScriptReinvestDry(&next)} // corpus first
 	for i := 0; i < c.N(6, 100); i++ {
 		hs = append(hs, ScriptDust(rng, 8000+i, &next))
 	}
